@@ -117,6 +117,11 @@ GUARDS = [
         'p++; e--;',
         'string name(p, static_cast<string::size_type>(e - p));',
         "if (next && *next && (*next != ';' && *next != '=')) {"]),
+    (['C01'], 'posting_line_state', 'src/textual.cc', r'post_t\s*\*\s*instance_t::parse_post\s*\(', [
+        'char * p = skip_ws(line);', 'switch (*p) {',
+        "case '*':", 'post->set_state(item_t::CLEARED);', 'p = skip_ws(p + 1);', 'break;',
+        "case '!':", 'post->set_state(item_t::PENDING);', 'p = skip_ws(p + 1);', 'break;', '}',
+        'char * next = next_element(p, true);']),
     (['C01'], 'virtual_cost_adds_flag', 'src/textual.cc', r'post_t\s*\*\s*instance_t::parse_post\s*\(', [
         'post->add_flags(POST_COST_VIRTUAL);']),
     (['C03', 'C08'], 'amount_add_precision', 'src/amount.cc', r'amount_t&\s*amount_t::operator\+=\s*\(\s*const\s+amount_t&\s*amt\s*\)\s*\{', [
